@@ -29,16 +29,19 @@ class PlainLeg(R.RenderLeg):
         obs = super().observe(case)
         if obs is None:
             return None
-        # neighbors() of every member, asked separately (for the oracle)
+        # neighbors() of every member, asked separately on a rebuilt graph with caching off (for the oracle)
         u = case["queries"][0][1]
-        members = obs["snap"]["uverts"][u]
-        nb = Q.build_and_query(case["ops"], [["NB", v, "Fwd", "UErr", None] for v in members])
-        obs["members"] = members
-        obs["nbs"] = nb["answers"] if nb else None
+        for ph, ops in ((obs, case["ops"]), (obs.get("phase2"), case["ops"] + case.get("ops2", []))):
+            if ph is None:
+                continue
+            members = ph["snap"]["uverts"][u]
+            nb = Q.build_and_query(ops, [["NB", v, "Fwd", "UErr", None] for v in members])
+            ph["members"] = members
+            ph["nbs"] = nb["answers"] if nb else None
         return obs
 
-    def oracle(self, case, obs):
-        if obs is None or obs["nbs"] is None:
+    def phase_oracle(self, case, obs):
+        if obs.get("nbs") is None:
             return []
         if not obs["unchanged"]:
             return ["basic_render changed the graph"]
